@@ -33,7 +33,9 @@ Same(r1, r2, exact) ==
 \* ---- C03: a location lookup through the real reader
 JudgeLoc(q, o) ==
   IF o.err # "" THEN "C03:error"
-  ELSE LET m == MapFor(lines, q.kind, q.name) IN
+  ELSE LET m0 == MapFor(lines, q.kind, q.name)
+           \* resolver lookups of a name without a map use the default map 0; a client subnet without an ECS map decides nothing
+           m == IF m0 = {} /\ q.kind = "M" THEN {0} ELSE m0 IN
        IF m = {} THEN (IF o.found THEN "C03:location-without-map" ELSE "ok")
        ELSE LET mm == CHOOSE x \in m : TRUE
                 nets == {n \in Nets(lines) : n.map = mm}
@@ -98,6 +100,10 @@ FreqOk(cnt, w, W, n) ==
   /\ (w = 0 => cnt = 0)
   /\ d <= 40000 /\ d >= -40000
   /\ d * d <= 36 * n * w * (W - w)
+RECURSIVE Gcd(_, _)
+Gcd(a, b) == IF b = 0 THEN a ELSE Gcd(b, a % b)
+RECURSIVE GcdAll(_, _)
+GcdAll(S, g) == IF S = {} THEN g ELSE LET x == CHOOSE x \in S : TRUE IN GcdAll(S \ {x}, Gcd(x, g))
 JudgeFreq(q, n, cs, other) ==
   LET cl == ClientLoc(lines, q)
       L == CHOOSE x \in cl.locs : TRUE
@@ -107,11 +113,13 @@ JudgeFreq(q, n, cs, other) ==
   IN IF ci = 0 \/ Cardinality(cl.locs) # 1 THEN "ok"
      ELSE LET lk == Lookup(V, sufs, ci)
               cands == {r \in lk.recs : r.ty = q.type}
-              W == SumWt(cands)
-          IN IF W = 0 \/ W > 12 \/ n > 20000 THEN "ok"            \* outside the arithmetic range: not judged
+              \* only the ratios matter: huge weights (10^9 : 2 * 10^9, 2^32-1 : 2^32-1) are divided by their gcd first
+              g == GcdAll({c.wt : c \in cands}, 0)
+              Ws == IF g = 0 THEN 0 ELSE SumWt({[wt |-> c.wt \div g, rd |-> c.rd] : c \in cands})
+          IN IF g = 0 \/ Ws > 12 \/ n > 20000 THEN "ok"            \* outside the arithmetic range: not judged
              ELSE IF other # 0 THEN "C11:not-one-address"
              ELSE IF \E i \in 1..Len(cs) : cs[i].rd \notin {c.rd : c \in cands} THEN "C11:served-undeclared"
-             ELSE IF \E c \in cands : ~FreqOk(CountOf(cs, c.rd), c.wt, W, n) THEN "C11:proportion"
+             ELSE IF \E c \in cands : ~FreqOk(CountOf(cs, c.rd), c.wt \div g, Ws, n) THEN "C11:proportion"
              ELSE "ok"
 CheckFreq(e) == \A b \in DOMAIN e.counts : Report(b, JudgeFreq(e.q, e.n, e.counts[b], e.other[b]))
 
